@@ -70,14 +70,14 @@ func ruleC12R2(r *Run) {
 					}
 				}
 				for _, f := range p.facts(ms[0].Instr) {
-					if f.X == idx && f.Op == "<" && f.Y == "builtin:len($s.rec.data)" {
+					if f.is(idx, "<", "builtin:len($s.rec.data)") {
 						bound = true
 					}
 				}
 				r.Check("(*shrinker).minimizeBlocks#all-words", l.Header.Instrs[0].Pos(), start && step && bound, "the pass walks i = 0, 1, … < len(s.rec.data): every word is offered", fmt.Sprintf("minimizeBlocks does not visit every word (starts at 0: %v, step +1: %v, bounded by len(data): %v)", start, step, bound))
 				extra := 0
 				for _, f := range p.facts(ms[0].Instr) {
-					if !(f.X == idx && f.Y == "builtin:len($s.rec.data)") && !strings.Contains(f.X, "time.") {
+					if !(f.is(idx, f.Op, "builtin:len($s.rec.data)") || f.is("builtin:len($s.rec.data)", f.Op, idx)) && !strings.Contains(f.X, "time.") {
 						extra++
 					}
 				}
@@ -294,7 +294,7 @@ func ruleC12R2(r *Run) {
 					okCond := false
 					for _, g := range guardsOf(acc.Instr.Block()) {
 						rl := p.relOf(g)
-						if rl.X == p.expr(lo) && rl.Op == "<" && rl.Y == p.expr(hi) {
+						if rl.is(p.expr(lo), "<", p.expr(hi)) {
 							okCond = true
 						}
 					}
@@ -313,11 +313,11 @@ func ruleC12R2(r *Run) {
 			okSt, okEnd := false, false
 			for _, f := range p.facts(acs[0].Instr) {
 				switch {
-				case f.X == "alloc(g).standalone" && f.Op == "==" && f.Y == "true":
+				case strings.HasPrefix(f.X, "copy($s.rec.groups[") && strings.HasSuffix(f.X, "]).standalone") && f.Op == "==" && f.Y == "true":
 					okSt = true
-				case f.X == "alloc(g).end" && f.Op == ">=" && f.Y == "0":
+				case strings.HasPrefix(f.X, "copy($s.rec.groups[") && strings.HasSuffix(f.X, "]).end") && f.Op == ">=" && f.Y == "0":
 					okEnd = true
-				case strings.Contains(f.X, "time.") || (f.X == "φi" && f.Op == "<"):
+				case strings.Contains(f.X, "time.") || (f.Op == "<" && f.Y == "builtin:len($s.rec.groups)"):
 				default:
 					extra = append(extra, f.String())
 				}
@@ -330,9 +330,12 @@ func ruleC12R2(r *Run) {
 				_ = class
 				okStart := false
 				for _, in := range l.Header.Instrs {
-					if ph, ok := in.(*ssa.Phi); ok && ph.Comment == "i" {
-						c, okc := p.evalAtEntry(ph, 0)
-						okStart = okc && c == 0
+					if ph, ok := in.(*ssa.Phi); ok {
+						// the index of the group offered for removal
+						if strings.Contains(p.expr(acs[0].Arg(0)), p.expr(ph)) || strings.Contains(factsStr(p.facts(acs[0].Instr)), "["+p.expr(ph)+"]") {
+							c, okc := p.evalAtEntry(ph, 0)
+							okStart = okStart || (okc && c == 0)
+						}
 					}
 				}
 				r.Check("(*shrinker).removeGroups#from-zero", l.Header.Instrs[0].Pos(), okStart, "the pass starts at group 0 ("+detail+")", "removeGroups does not start at the first group")
